@@ -2,9 +2,9 @@
 C07 - Anonymized overlays never send from the node's own address.
 
 Explicit-state BFS over event histories on one real node N whose overlays (a real TunnelCommunity, one toy
-overlay that asked for anonymity, one plain toy overlay) all sit on ``TunnelEndpoint(SimEndpoint)``; three more
-real tunnel nodes (relay R, exit X with PEER_FLAG_EXIT_IPV8, exit Y without it) serve the circuits.  Every event
-is a macro step run to network quiescence; time passes only in the explicit "tick" event (5 s).
+overlay that asked for anonymity, one plain toy overlay) all sit on ``TunnelEndpoint(SimEndpoint)``; two more
+real tunnel nodes (exit X with PEER_FLAG_EXIT_IPV8, exit Y without it, both also relay) serve the circuits.  Every
+event is a macro step run to network quiescence; time passes only in the explicit "tick" event (5 s).
 
 Oracle (written from the statement; it reads the wire and the arguments of ``send_data``, never the routing code):
  * N's raw socket never carries a datagram that starts with the anonymized overlay's prefix while that overlay
